@@ -141,7 +141,12 @@ PRELUDE_FILES = ['prelude.js', 'numeric.js', 'types.js', 'goroutines.js', 'jsmap
 
 def run_js_functions(rep, spec, contracts, verbose=False):
     from .jsexec import JSExec, run_jsdump
-    files = [os.path.join(REPO, 'compiler', 'prelude', f) for f in PRELUDE_FILES]
+    names = list(PRELUDE_FILES)
+    for c in contracts:                    # (the engine self-test corpus brings its own file)
+        fn = c.key.split()[0] if ' ' in c.key else None
+        if fn and fn.endswith('.js') and fn not in names:
+            names.append(fn)
+    files = [os.path.join(REPO, 'compiler', 'prelude', f) for f in names if os.path.exists(os.path.join(REPO, 'compiler', 'prelude', f))]
     dump = run_jsdump(files)
     out = []
     proved_lemmas = set()
